@@ -687,9 +687,9 @@ Lemma farm_creation_funds cfg sender funds asset fee_msgs :
    (exists d, funds = [(d, amount_of asset + amount_of fee)] /\ d = denom_of asset) /\
    fee_msgs = (if 0 <? amount_of fee then [plain (MBankSend (fm_fee_collector cfg) [fee])] else []))
   \/
-  (denom_of fee <> denom_of asset /\ List.length funds = 2%nat /\
+  (denom_of fee <> denom_of asset /\ List.length funds = (if (amount_of fee =? 0)%Z then 1%nat else 2%nat) /\
    (exists sent, find (fun c => String.eqb (denom_of c) (denom_of asset)) funds = Some sent /\ amount_of sent = amount_of asset) /\
-   (amount_of fee = 0 -> fee_msgs = []) /\
+   (amount_of fee = 0 -> fee_msgs = [] /\ exists d, funds = [(d, amount_of asset)] /\ d = denom_of asset) /\
    (0 < amount_of fee ->
       exists paidc, find (fun c => String.eqb (denom_of c) (denom_of fee)) funds = Some paidc /\
         amount_of fee <= amount_of paidc /\
@@ -723,7 +723,11 @@ Proof.
     apply bind_ok in Ha. destruct Ha as [[] [Hamt Ha]]. apply ensure_ok in Hamt. apply ensure_ok in Ha.
     split; [apply Nat.eqb_eq; exact Ha|]. split; [exists sent; split; [exact Hsent | lia]|].
     destruct (amount_of fee =? 0) eqn:E0; cbn [negb] in Hf.
-    + split; [intros _; exact Hf | intros C; lia].
+    + split; [|intros C; lia]. intros _. split; [exact Hf|].
+      destruct funds as [|c [|c2 r]]; try discriminate.
+      cbn [find] in Hsent. destruct (String.eqb (denom_of c) (denom_of asset)) eqn:Ec; [|discriminate].
+      inversion Hsent; subst sent. apply String.eqb_eq in Ec. exists (denom_of c). split; [|exact Ec].
+      destruct c as [d a]. unfold denom_of, amount_of in *. cbn in *. f_equal. f_equal. lia.
     + split; [intros C; lia|]. intros _. unfold process_farm_creation_fee in Hf. fold fee in Hf.
       apply bind_ok in Hf. destruct Hf as [paidc [Hp Hf]]. apply of_option_ok in Hp.
       apply bind_ok in Hf. destruct Hf as [refund [Hr Hf]].
